@@ -777,6 +777,21 @@ class WireWorld:
             self.probes['payload_ge_64k'] += 1
         return b
 
+    def edge_payload(self, cap, measure):
+        """a payload sized so that `measure(payload)` (the pickled length of the message or of its reply) lands on or
+        next to a multiple of 64 KiB: slicing, buffering and length arithmetic break at exactly those sizes"""
+        ch = self.ch
+        if cap < 65536 or not ch.flip('gen.edge', 1, 3):
+            return None
+        target = 65536 * (1 + ch.choose('gen.edge_k', 2 if cap >= 131072 + 8 else 1)) + ch.choose('gen.edge_d', 11) - 5
+        over = measure(bytes(target)) - target
+        pay = bytes(range(256)) * ((target - over) // 256 + 1)
+        pay = pay[:target - over]
+        if measure(pay) != target:
+            return None
+        self.probes['frame_on_64k_edge'] += 1
+        return pay
+
     def gen_item(self, channel, cap, last, tiny=False):
         """one message of the channel's real types; closing ones only where allowed"""
         import dawgie.pl.message as M
@@ -1786,7 +1801,11 @@ class Flow:
             self.cmds = []
             for j in range(1 + ch.choose('gen.ncmd', 3)):
                 if ch.choose('gen.cmdkind', 2) == 0:
-                    c = COMMAND(Func.set, (idx, j, 3, 4, 5, 6), Table.prime, world.payload(cap))
+                    key = (idx, j, 3, 4, 5, 6)
+                    which = ch.choose('gen.edge_of', 2)  # the reply's pickle or the request's
+                    edge = world.edge_payload(cap + 8, (lambda b: len(pickle.dumps(db_reply(COMMAND(Func.set, key, Table.prime, b)), pickle.HIGHEST_PROTOCOL)))
+                                              if which == 0 else (lambda b: len(pickle.dumps(COMMAND(Func.set, key, Table.prime, b), pickle.HIGHEST_PROTOCOL))))
+                    c = COMMAND(Func.set, key, Table.prime, edge if edge is not None else world.payload(cap))
                 else:
                     c = COMMAND(Func.get, (idx, j, 3, 4, 5, 6), Table.prime, None)
                 self.cmds.append(c)
